@@ -14,12 +14,58 @@ EXPLANATION = (
     "touching an invalidated iterator; the main loop refreshes the context on every tick path; a new "
     "context starts with an empty archive and takes its identity from the inode of its own held fd; all "
     "readers of 'max'-grammar files delegate to one parser; the d_type and fstatat branches of "
-    "readDirFromDIR agree.  Parsing exactness and every formula (protection distribution, effective "
+    "readDirFromDIR agree; the three effective-swap statistics are folds over the ancestor chain "
+    "(every non-root value is min/max of the parent's effective value and the local one, one audited "
+    "local answer for swap.max = 0).  Parsing exactness and every formula (protection distribution, effective "
     "swap, io cost, EWMA, deltas) are numeric and not decided - that is most of the property.")
 RULE_SUMMARY = "sibling rule over the 29 cached accessors, E-PATH order in refresh, value shape of temporal getters, erase-in-iteration, must-follow in the tick, reader delegation"
-NOT_DECIDED = ["parsing exactness of every reader", "memory protection distribution", "effective swap max/free/utilisation", "io cost dot product",
+NOT_DECIDED = ["parsing exactness of every reader", "memory protection distribution", "effective swap max/free/utilisation as numbers (their recursion scheme is decided)", "io cost dot product",
                "moving-average and per-tick delta recurrences as values"]
 ASSUMPTIONS = ["an inode number identifies a cgroup directory for as long as a descriptor to it is held"]
+
+
+SWAP_SCHEME = (  # getter, accessor used on the parent, combiner
+    ("getEffectiveSwapMax", "effective_swap_max", "std::min"),
+    ("getEffectiveSwapFree", "effective_swap_free", "std::min"),
+    ("getEffectiveSwapUtilPct", "effective_swap_util_pct", "std::max"),
+)
+# local-only results that are intended (reason)
+SWAP_LOCAL_OK = {("getEffectiveSwapUtilPct", "0", "(*swap_max_opt == 0)"): "a cgroup that cannot swap (swap.max = 0) reports 0 % by definition (CgroupContextTest.EffectiveSwapUtilPct)"}
+
+
+def effective_swap_scheme(ctx):
+    """The three 'effective' swap statistics are folds over the ancestor chain: for a non-root cgroup every value returned is
+    combine(parent's effective value, local value) - no path may answer from the local level alone."""
+    P, cg = ctx.prog, ctx.cg
+    n = 0
+    for getter, acc, comb in SWAP_SCHEME:
+        f = ctx.fn1("Oomd::CgroupContext::" + getter)
+        ctx.use(f)
+        fl = Flow(P, f, cg=cg)
+        X = Expander(P, f)
+        folds = 0
+        for r in returns(f):
+            if "val" not in f.nodes[r]:
+                continue
+            t = X(f.nodes[r]["val"])
+            g = fl.guards(r)
+            if any(k == "this->cgroup_.isRoot()" and p is True for k, p in g):
+                continue            # the root's own value (system-wide numbers)
+            if t in ("std::nullopt", "{}"):
+                continue
+            n += 1
+            parent = "*this->ctx_.addToCacheAndGet(this->cgroup_.getParent())->get().%s(param:err)" % acc
+            if t.startswith(comb + "(") and parent in t:
+                folds += 1
+                ctx.ok("swap-fold:%s@%d" % (getter, f.nodes[r].get("line", 0)), "recursion scheme (sibling agreement)", f.loc(r), "%s(parent's %s, local value)" % (comb, acc))
+                continue
+            okl = [why for (gg, val, cond), why in SWAP_LOCAL_OK.items() if gg == getter and val == t and any(k == cond and p is True for k, p in g)]
+            ctx.check(bool(okl), "swap-fold:%s@%d" % (getter, f.nodes[r].get("line", 0)), "recursion scheme (sibling agreement)", f.loc(r),
+                      okl[0] if okl else "", "%s returns '%s' for a non-root cgroup without combining it with the parent's %s: an ancestor that is closer to its "
+                      "limit (because of sibling cgroups) is ignored, the statistic is no longer the %s over the ancestor chain" % (getter, t[:70], acc, comb[5:]))
+        ctx.check(folds >= 1, "swap-fold-present:" + getter, "recursion scheme (sibling agreement)", f.loc(), "%s folds over the ancestors" % getter, "%s has no %s(parent, local) return" % (getter, comb))
+    ctx.counters["swap_scheme_returns"] = n
+    ctx.floor("swap_scheme_returns", 3, "value returns of the three effective-swap getters")
 
 
 def run(ctx):
@@ -65,6 +111,10 @@ def run(ctx):
                       "proxy() stores a value (or nullopt) into the slot on every path", "proxy() can return without storing into the slot")
     ctx.floor("proxy_instances", 5, "instantiations of proxy()")
 
+    effective_swap_scheme(ctx)
+    # prefer/avoid xattrs parse exactly: the same reader rule as C03 (prefer probed before avoid in both namespaces)
+    from .C03 import kill_preference_reader
+    kill_preference_reader(ctx)
     # ------------------------------------------------ refresh
     rf = ctx.fn1("Oomd::CgroupContext::refresh")
     aw = field_writes(rf, "archive_")
